@@ -89,10 +89,23 @@ def _is_shared_effect(eng, ef: Effect, shared: Set[ClassInfo]) -> Tuple[bool, st
 
 
 # ----------------------------------------------------------------------------------------------- R20.1
-def r20_1(ctx, fx: Effects) -> None:
+def key_class_functions(eng) -> Set[FunctionInfo]:
+    """methods of the key classes and their native bindings (used when a sibling property runs R20.1 as a clause about keys)"""
+    P = eng.prog
+    out: Set[FunctionInfo] = set()
+    for base in ("rfc7517.models:BaseKey", "rfc7517.models:NativeKeyBinding", "_keys:KeySet"):
+        c = P.cls(base)
+        for k in [c] + c.all_subclasses():
+            out.update(k.methods.values())
+    return out
+
+
+def r20_1(ctx, fx: Effects, only: Optional[Set[FunctionInfo]] = None) -> None:
     eng = ctx.eng
     shared = shared_classes(eng)
     scope = op_scope(eng)
+    if only is not None:
+        scope = [f for f in scope if f in only]
     ctx.extra["operation_reachable_functions"] = len(scope)
     n = 0
     unknown_roots = 0
@@ -114,7 +127,7 @@ def r20_1(ctx, fx: Effects) -> None:
                 ctx.ok("R20.1", inst, "whitelisted: " + w)
                 continue
             ctx.fail("R20.1", fn, ef.node, f"an operation-reachable statement writes shared state ({why}): a later or concurrent call can observe it")
-    ctx.count("R20.1", n, 40, "stores in operation-reachable functions")
+    ctx.count("R20.1", n, 40 if only is None else 10, "stores in operation-reachable functions")
     ctx.extra["effects_with_unknown_root"] = unknown_roots
     # mutating calls into shared objects through repo methods are covered because the callee's own effects are in scope
     # closures must not capture-and-mutate
